@@ -49,7 +49,7 @@ Theorem add_result_class : forall l c k a b rd rq ru,
 Proof.
   intros l c k a b rd rq ru H1 H2 E.
   change (add_model T (Fl l c k) a b) with (add_model T (Fl l c false) a b) in E.
-  rewrite add_model_units_only_by_equality in E.
+  apply res_class_of_RK in E. rewrite add_class_units_only_by_equality in E. apply res_class_RK in E. destruct E as [u' E].
   pose proof (forallb3_In _ _ _ resq_ok _ _ _ resq_all _ _ _ (in_flags4 l c) (in_lspace_wu a H1)
                 (in_rspace_wu b (ueqb (ou a) (ou b)) H2)) as K.
   unfold resq_ok in K. rewrite E in K. rewrite pr_pair_wu, jw_pair_wu, !defined_wu, !od_wu, !oq_wu in K.
@@ -67,37 +67,38 @@ Qed.
    check_units, the same class *)
 Definition same_q (x y : res) : bool :=
   match x, y with RK _ q _, RK _ q' _ => qeqb q q' | _, _ => false end.
+Definition same_c (x y : res) : bool :=
+  match x, y with RK d q _, RK d' q' _ => deqb d d' && qeqb q q' | _, _ => false end.
 Definition mono_ok (a b : operand) : bool :=
   let r l c := add_model T (Fl l c false) a b in
   let acc x := match x with RK _ _ _ => true | _ => false end in
   implb (acc (r false true)) (same_q (r false true) (r true true))
   && implb (acc (r false false)) (same_q (r false false) (r true false))
-  && implb (acc (r true true)) (res_eqb (r true true) (r true false))
-  && implb (acc (r false true)) (res_eqb (r false true) (r false false)).
+  && implb (acc (r true true)) (same_c (r true true) (r true false))
+  && implb (acc (r false true)) (same_c (r false true) (r false false)).
 Lemma mono_all : forallb (fun a => forallb (mono_ok a) rspace) lspace = true.
 Proof. vm_cast_no_check (eq_refl true). Qed.
-Lemma res_eqb_RK : forall d q u r, res_eqb (RK d q u) r = true -> r = RK d q u.
-Proof.
-  intros d q u [x y z| | |]; simpl; try discriminate. intros H.
-  apply andb_true_iff in H. destruct H as [H C]. apply andb_true_iff in H. destruct H as [A B].
-  apply deqb_eq in A. apply qeqb_eq in B. apply ueqb_eq in C. subst. reflexivity.
-Qed.
 Theorem flags_monotone : forall a b rd rq ru,
   has_class T (od a) = true -> has_class T (od b) = true ->
   add_model T (Fl false true false) a b = RK rd rq ru ->
   (exists rd' ru', add_model T (Fl true true false) a b = RK rd' rq ru') /\
-  add_model T (Fl false false false) a b = RK rd rq ru.
+  (exists ru', add_model T (Fl false false false) a b = RK rd rq ru').
 Proof.
   intros a b rd rq ru H1 H2 E.
-  rewrite add_model_units_only_by_equality in E.
-  rewrite (add_model_units_only_by_equality T (Fl true true false)), (add_model_units_only_by_equality T (Fl false false false)).
+  apply res_class_of_RK in E. rewrite add_class_units_only_by_equality in E. apply res_class_RK in E. destruct E as [u0 E].
   pose proof (forallb2_In _ _ mono_ok _ _ mono_all _ _ (in_lspace_wu a H1) (in_rspace_wu b (ueqb (ou a) (ou b)) H2)) as K.
   unfold mono_ok in K. rewrite E in K. cbn [implb] in K.
   apply andb_true_iff in K. destruct K as [K K4]. apply andb_true_iff in K. destruct K as [K _].
   apply andb_true_iff in K. destruct K as [K1 _].
-  split; [|apply res_eqb_RK; assumption].
-  destruct (add_model T (Fl true true false) _ _) as [x y z| | |]; simpl in K1; try discriminate.
-  apply qeqb_eq in K1. subst. exists x, z. reflexivity.
+  split.
+  - destruct (add_model T (Fl true true false) (with_units a uzero) _) as [x y z| | |] eqn:E2; simpl in K1; try discriminate.
+    apply qeqb_eq in K1. subst y.
+    apply res_class_of_RK in E2. rewrite <- add_class_units_only_by_equality in E2. apply res_class_RK in E2.
+    destruct E2 as [u2 E2]. exists x, u2. exact E2.
+  - destruct (add_model T (Fl false false false) (with_units a uzero) _) as [x y z| | |] eqn:E2; simpl in K4; try discriminate.
+    apply andb_true_iff in K4. destruct K4 as [A B]. apply deqb_eq in A. apply qeqb_eq in B. subst x y.
+    apply res_class_of_RK in E2. rewrite <- add_class_units_only_by_equality in E2. apply res_class_RK in E2.
+    destruct E2 as [u2 E2]. exists u2. exact E2.
 Qed.
 
 (* ---- the units of a sum ---------------------------------------------------------------- *)
@@ -124,7 +125,8 @@ Proof.
     apply deqb_eq in A; apply qeqb_eq in B; apply ueqb_eq in C; [left|right]; repeat split; assumption.
 Qed.
 (* with other operand units the strict statement "the sum has the units of one of its
-   operands" fails (finding add.result_units_reset); witness inside the model: *)
+   operands" fails unless __add__/__sub__ go through Expr._sum_units (C18.sum_units_cases;
+   finding add.result_units_reset); witness inside the model: *)
 Definition units_reset_witness : bool :=
   let a := Op Dlaplace Qpower (UV 1 1 2 0) VV in
   match add_model T (Fl true true false) a a with RK _ _ u => negb (ueqb u (ou a)) | _ => false end.
